@@ -270,7 +270,7 @@ for directed, ids in ((False, [0, 1, 2]), (True, [0, 1])):
 
 
 
-for _N, _ids, _pl in ((3, [0, 1, 2, 3], 1), (4, [0, 1], 1), (3, [1, 3, 4, 6], 1), (3, [0, 1, 2, 3, 4], 4)):
+for _N, _ids, _pl in ((3, [0, 1, 2, 3], 1), (4, [0, 1], 1), (3, [1, 3, 4, 6], 1)):
     for _pi in range(2 ** _pl):
         _prefix = [bool(_pi >> k & 1) for k in range(_pl)]
         REG.add("eager_u_N%d_ids%s_p%d" % (_N, "".join(map(str, _ids)), _pi), T_eager, eager_body,
